@@ -68,7 +68,10 @@ var appActions = map[string]appAction{
 	}},
 	// a message sent with a receipt request: the application waits for the receipt
 	"app:rcpt_send": {sends: true, f: func(ctx context.Context, e *env) error {
-		return e.rcptH.SendMessage(ctx, e.s, stanza.Message{ID: "r1", To: peerJID, Type: stanza.ChatMessage}.Wrap(nil))
+		// (Message.Wrap yields a start element without a namespace, which SendMessage refuses)
+		start := stanza.Message{ID: "r1", To: peerJID, Type: stanza.ChatMessage}.StartElement()
+		start.Name.Space = stanza.NSClient
+		return e.rcptH.SendMessage(ctx, e.s, xmlstream.Wrap(nil, start))
 	}},
 	// another message with a receipt request sent through the handler (the helper that
 	// shares the handler's table and lock with the peer's receipts)
